@@ -6,6 +6,7 @@ package main
 
 import (
 	"fmt"
+	"strings"
 	"sync"
 	"time"
 
@@ -41,6 +42,8 @@ var rewriteShapes = []string{
 	// bump-along
 	`a*b`, `\w*@`, `.*x`, `.*?x`, `(?>.*)x`, `[ab]+c`, `a*`, `(a*)b`, `a*|b`, `\s*a`, `(?s).*b`,
 	// alternation prefix factoring and atomic reordering/trimming
+	`(a*c?)b\1`, `(\w+,)\1`, `(a+b?)\1c`, `([ab]+c?)d\1`, `(a*)b\1`,
+	`\d{2}a|\d{1,2}b`, `[xy]{3}a|[xy]{1,3}b`, `[ab]{2}c|[ab]{0,2}d`, `[^a]{2}b|[^a]{1,2}c`, `(?>[ab]{2}c|[ab]{1,2}d)`, `.{2}a|.{1,2}b`,
 	`abc|abd`, `abc|abd|x`, `ab|ac|ad`, `(?>abc|abd)`, `(?>ab|abc|ad)e?`, `(?>hi|there|hello)`, `(?>a|b|ab)c`, `(?>ab||c)d`, `(?>|a)b`, `(?>a||b)`, `this|that|there`, `(?:this|that)s`, `[ab]c|[ab]d`, `a.b|a.c`,
 	`(?>x(?:hi|there|hello))`, `(?>abc|abd|aec|abf)`, `(?i:abc|abd)`, `(abc|abd)\1`, `(?<=abc|abd)e`, `(?<=cba|dba)e`,
 	// balancing groups: the close fails while the popped group is empty and the matcher backtracks into the
@@ -61,7 +64,7 @@ func legGates(c *Ctx) {
 	var pats []patCase
 	for _, s := range rewriteShapes {
 		for _, o := range []Opts{{}, {I: true}, {S: true}, {M: true}, {RTL: true}} {
-			pats = append(pats, patCase{pat: s, o: o, alpha: []rune{'a', 'b', 'c', 'd', 'x', '\n', '.', '1', ' ', 'h', 'i', 't', 'e', 'A'}})
+			pats = append(pats, patCase{pat: s, o: o, alpha: []rune{'a', 'b', 'c', 'd', 'x', 'y', '\n', '.', '1', '2', ' ', 'h', 'i', 't', 'e', 'A'}})
 		}
 	}
 	pats = append(pats, genPatterns(c.Rng, c.N(300, 8000), true)...)
@@ -108,6 +111,9 @@ func legGates(c *Ctx) {
 					if ch >= 'a' && ch <= 'z' && len(keep) < 7 && !containsRune(keep, ch) {
 						keep = append(keep, ch)
 					}
+				}
+				if strings.Contains(p.pat, `\d`) && !containsRune(keep, '1') {
+					keep = append(keep, '1')
 				}
 				al = keep
 			}
